@@ -1268,10 +1268,11 @@ func (fv *FuncVC) callVerbObligations(call *ast.CallExpr, full string, args []Va
 		if cv.Callee != full {
 			continue
 		}
-		off := strings.Index(cv.Context, "%s")
+		off := strings.Index(cv.Context, "%*")
+		ctxText := strings.Replace(cv.Context, "%*", "%s", 1)
 		from := 0
 		for {
-			p := strings.Index(norm[from:], cv.Context)
+			p := strings.Index(norm[from:], ctxText)
 			if p < 0 {
 				break
 			}
